@@ -15,6 +15,7 @@ from .exprs import ExprMixin
 from .calls import CallMixin
 from .loops import LoopMixin, same_value
 from .stubs import STUBS, ASSUMED
+from . import fsmodel  # noqa: F401  (registers the os.path/pathlib/hashlib stubs)
 from .contract import CellOf, ObjSpec
 
 
@@ -148,6 +149,8 @@ def verify_function(index, contracts, c, props_filter=None):
         res.error = f"unsupported: {e}"
     except AttributeError as e:
         res.error = f"contract refers to a vanished name: {e}"
+    except z3.Z3Exception as e:
+        res.error = f"unsupported: the code does not have the shape the contract types it with ({e})"
     res.obligations = ctx.obligations
     res.inlined = ctx.inlined
     res.stubs = ctx.stub_uses
